@@ -546,6 +546,29 @@ example : tameRun 20 (allEnabled [⟨"F", true, 2, L [.arg 0, .ws, .punct "+", .
       .ws, .punct ";"]) := by decide
 end Examples
 
+
+/-- **trailing_function_name_is_invoked.** An invocation that is completed by the text *after* an expansion
+(`early_function_pos` / `last_macro_function_index`).  After an invocation was replaced by its expansion
+`R0 ++ g :: blanks` (`P`: the tokens before it; `next_pos` behind the expansion, `early_function_pos` at its start,
+`lastFn`: the macro just applied if it is function-like): if `g` is the name of an enabled function-like macro other
+than the one just applied, only blanks (white space, comments) follow it inside the expansion -- e.g. what is left of
+an empty argument or of a macro with an empty replacement list -- and the text behind the expansion starts, after
+blanks, with `(`, then `find_single_macro` reports an invocation of that macro at the position of `g`; whatever
+precedes `g` in the expansion cannot be invoked (its `(` would lie inside the expansion).  The loop then reads the
+arguments from the text behind the expansion (`applyLoop_user_step`).
+Whether C does the same depends on the hide set of `g` and on what followed `g` when C looked at it:
+`differs_painted_function_name_reinvoked`, `differs_function_name_before_vanished_macro` (Thm/C12Boundary.lean) are
+inputs where it does not, `agrees_on_invocation_completed_after_expansion` inputs where it does. -/
+theorem trailing_function_name_is_invoked (env : List Entry) (P R0 blanks rest : List PTok) (g : String) (b : Bool)
+    (mj : Nat) (e : Entry) (lastFn : Option Nat)
+    (hsel : Selects env g mj e) (hfn : e.m.isFunction = true) (hlast : lastFn ≠ some mj)
+    (hnc : NoConcat R0) (hblank : ∀ t ∈ blanks, t.tok.isBlank = true)
+    (hparen : ∃ b' tail, trimStart rest = ⟨.lparen, b'⟩ :: tail) :
+    findSingle (P ++ (R0 ++ ⟨.id g, b⟩ :: blanks) ++ rest)
+      ⟨P.length + (R0 ++ ⟨.id g, b⟩ :: blanks).length, P.length, lastFn⟩ env =
+      .ok (.user mj (P.length + R0.length)) :=
+  early_scan_finds_trailing_name env P R0 blanks rest g b mj e lastFn hsel hfn hlast hnc hblank hparen
+
 /-! ## Inclusion -/
 
 /-- **include_is_paste.** If `#include "f"` succeeds (the file loads, is not marked `#pragma once`, and has no
